@@ -636,7 +636,8 @@ theorem unbox2_sat {c : Ctx} (hA : AwaitOK c) : ∀ f need p, (∀ o ∈ p.objs,
       refine Sat.bind_getSt (fun st => ?_)
       refine Sat.ite (fun _ => Sat.pure _ (by simp [PV.objs])) (fun _ => ?_)
       refine Sat.bind (Sat.netrefFactory hA _) (fun _ => ?_)
-      refine Sat.bind (Sat.modify _ (fun _ => rfl) (fun _ s hs => ⟨s, hs, rfl, rfl⟩) (fun _ p hp => hp)) (fun _ => ?_)
+      refine Sat.bind (Sat.modify _ (fun st => by split <;> rfl) (fun st s hs => ⟨s, by split at hs <;> exact hs, rfl, rfl⟩)
+        (fun st p hp => by split at hp <;> exact hp)) (fun _ => ?_)
       exact Sat.pure _ (by simp [PV.objs])
 
 theorem unbox_sat {c : Ctx} (hA : AwaitOK c) (f : Nat) (need : List Nat) (pkg : Val) : Sat c need (unbox f pkg) PV.objs := by
@@ -1474,9 +1475,19 @@ theorem Sat.dispatch {c : Ctx} (hA : AwaitOK c) {need : List Nat} (w : Wire) : S
     refine Sat.bind (Sat.liftE _ (Q := fun _ => []) (by simp)) (fun x => ?_)
     refine Sat.ite (fun _ => Sat.dispatchRequest hA _ _) (fun _ => ?_)
     refine Sat.ite (fun _ => ?_) (fun _ => ?_)
-    · exact Sat.bind (Sat.unboxTop hA _) (fun obj => Sat.seqCallback _ _ (by mem_tac))
+    · refine Sat.bind (Sat.attempt (Sat.unboxTop hA _)) (fun r => ?_)
+      cases r with
+      | ok obj => exact Sat.seqCallback _ _ (by mem_tac)
+      | error x =>
+        simp only [Handlers.deliverResponse]
+        exact Sat.ite (fun _ => Sat.throwX _) (fun _ => Sat.seqCallback _ _ (by simp [Ans.objs]))
     refine Sat.ite (fun _ => ?_) (fun _ => Sat.throwE _)
-    exact Sat.bind (Sat.loadExc hA _) (fun a => Sat.seqCallback _ _ (by mem_tac))
+    refine Sat.bind (Sat.attempt (Sat.loadExc hA _)) (fun r => ?_)
+    cases r with
+    | ok a => exact Sat.seqCallback _ _ (by mem_tac)
+    | error x =>
+      simp only [Handlers.deliverResponse]
+      exact Sat.ite (fun _ => Sat.throwX _) (fun _ => Sat.seqCallback _ _ (by simp [Ans.objs]))
 
 /-! ### waiting and serving -/
 
